@@ -377,6 +377,10 @@ pub fn valid<P: Pad>(call: &Value) -> bool {
             "clone" | "drop" | "mark" | "unwrap" | "fagain" | "downgrade" => has_root(o),
             "clonef" | "clear" => slot_state(a, k, i) == Some(true),
             "set" => has_root(b) && node_ok(a) && slot_state(a, k, i) == Some(false),
+            // after giving up one handle of `o` the program must still be able to name `a`
+            "put" => has_root(o) && node_ok(a) && slot_state(a, k, i) == Some(false)
+                && (a != o || w.roots.get(&o).map_or(0, |v| v.len()) >= 2 || ctx_ptr(a).is_some()),
+            "take" => slot_state(a, k, i) == Some(true),
             "dropval" => w.moved.contains_key(&o),
             #[cfg(feature = "weak")]
             "upgrade" | "clonew" | "dropw" | "wq" => w.wroots.get(&o).map_or(false, |v| !v.is_empty()),
@@ -449,6 +453,29 @@ pub fn exec<P: Pad>(call: &Value) {
                 s[i - 1].inner = Some(c);
             });
             json!({})
+        }),
+        "put" => run_op::<P>(call, || {
+            // moves a program-held pointer into a field: no library call at all
+            with_world::<P, _>(|w| {
+                let c = w.roots.get_mut(&o).unwrap().pop().unwrap();
+                let n = unsafe { node_ref(w, a) }.unwrap();
+                let mut s = slot_vec(n, &k).borrow_mut();
+                s[i - 1].target = o;
+                s[i - 1].inner = Some(c);
+            });
+            json!({})
+        }),
+        "take" => run_op::<P>(call, || {
+            let t = with_world::<P, _>(|w| {
+                let n = unsafe { node_ref(w, a) }.unwrap();
+                let (t, c) = {
+                    let mut s = slot_vec(n, &k).borrow_mut();
+                    (s[i - 1].target, s[i - 1].inner.take().unwrap())
+                };
+                w.roots.entry(t).or_default().push(c);
+                t
+            });
+            json!({"o": t})
         }),
         "clear" => {
             let (t, c) = with_world::<P, _>(|w| {
